@@ -323,6 +323,50 @@ def kani_part(ctx):
     kanirun.judge(ctx, specs, res, 'c17')
 
 
+def ctor_and_serde(ctx, prog):
+    A = Auditor(ctx, prog)
+    # NetworkName::try_from: the text that is validated is the text that is stored (not a normalised copy of it)
+    f = prog.one(r'network_name::<impl at [^>]*>::try_from$', sig=r'^T ->')
+    paths, ex = A.paths(f)
+
+    def r_nn(p):
+        if p.kind != 'return':
+            return 'panic ' + p.msg
+        if not p.is_ok():
+            return None
+        v = [c for c in p.calls if re.search(r'NetworkName::validate_network_name$', c.name) and p.took(c, 'Ok')]
+        if len(v) != 1:
+            return 'name stored without the validator accepting it'
+        stored = p.payload()
+        st = strip(p.term(stored.fields[0])) if isinstance(stored, VAgg) and stored.fields else None
+        val = v[0].args[0]
+        while isinstance(val, tuple) and val and (val[0] in ('ref', 'deref') or (val[0] == 'app' and re.search(r'Deref>::deref$|AsRef<.*>>::as_ref$|::as_str$|::borrow$', val[1]))):
+            val = val[1] if val[0] in ('ref', 'deref') else val[2][0]
+        if st is None or strip(val) != st:
+            return 'the validated text (%s) is not the stored one (%s): a name the validator never saw is kept' % (term_str(v[0].args[0])[:80], term_str(st)[:60])
+        return None
+    A.require('NetworkName::try_from/the-validated-text-is-the-stored-text', paths, r_nn, replay=R('[network]'))
+
+    # derived Deserialize of IotaDID: only through TryFrom<CoreDID> (method / tag / network checks and normalisation)
+    fs = prog.find(r'^did::iota_did::_::<impl at [^>]*>::deserialize$|^iota_did::_::<impl at [^>]*>::deserialize$')
+    nm = 'IotaDID::deserialize/only-through-the-validating-conversion'
+    if len(fs) != 1:
+        ctx.add(Ob(nm, 'M', INCONCLUSIVE, detail='derived Deserialize of IotaDID: %d candidates' % len(fs)))
+        return
+    dpaths, dex = A.paths(fs[0], inline=r'deserialize::\{closure')
+
+    def r_de(p):
+        if p.kind != 'return':
+            return 'panic ' + p.msg
+        if not p.is_ok():
+            return None
+        cv = [c for c in p.calls if re.search(r'<(\w+::)*IotaDID as (\w+::)*TryFrom<(\w+::)*CoreDID>>::try_from$', c.name) and p.took(c, 'Ok')]
+        if len(cv) != 1:
+            return 'an IotaDID is produced without TryFrom<CoreDID> succeeding (e.g. a transparent derive)'
+        return None if strip(p.term(p.payload())) == ('field', cv[0].ret, 0, 'Ok') else 'the value handed back is not what the conversion produced'
+    A.require(nm, dpaths, r_de, replay=[R('[valid]'), R('[case]')])
+
+
 def main(ctx):
     prog, info = load(CRATES, src_only=SRC)
     ctx.extra['mir'] = info
@@ -331,6 +375,7 @@ def main(ctx):
                     'one-position 75-byte strings under Kani (11 GB after 13 min in the design probe)']
     guarded(ctx, 'network name (M view)', 'M', lambda: network_name_m(ctx, prog))
     guarded(ctx, 'iota did audit', 'M', lambda: run(ctx, prog))
+    guarded(ctx, 'network name constructor and serde route', 'M', lambda: ctor_and_serde(ctx, prog))
     # "equal exactly when networks and tag bytes are equal" = derived (structural) comparison of the normal form: IotaDID and the
     # CoreDID inside it compare / order / hash by the compiler-derived impls, not by a hand-written reading of their parts
     import derives
